@@ -14,7 +14,8 @@ MANIFEST = dict(
          "replayed on one real object and TLC validates every step after the reinit against the specification of a fresh "
          "sketcher (join of measured tables from the empty set; get_low_sketch = 0 and overflow counter = 0 right after "
          "reinit). ProbOrdMinHash2's self-clearing hash_set is checked by comparing a used instance with a fresh one "
-         "(same pinned seed) on the same input.",
+         "(same pinned seed) on the same input."
+             " One object per sketcher kind also lives through 140000 (items, reinit/reset) cycles and is compared with a new object at every reset count within 6 of a multiple of 2^8 / 2^16 (long life); SetSketch kinds include a signed register type and the sketcher's own cardinality reading.",
     design_ref="DESIGN.md section 4, C13",
     note="trusted: TLC, Json/IOUtils, rank abstraction, measured tables; behavioural equality is checked on the "
          "enumerated/sampled suffixes, not proved for all suffixes",
